@@ -102,6 +102,11 @@ func zeroingsIn(fn *ssa.Function) []zeroing {
 				if bi, ok := x.Call.Value.(*ssa.Builtin); ok && bi.Name() == "clear" && len(x.Call.Args) == 1 {
 					out = append(out, zeroing{At: x, Operand: x.Call.Args[0], Cross: b})
 				}
+			case *ssa.Defer:
+				// `defer clear(x)`: cleared before the object goes back where it came from
+				if bi, ok := x.Call.Value.(*ssa.Builtin); ok && bi.Name() == "clear" && len(x.Call.Args) == 1 {
+					out = append(out, zeroing{At: x, Operand: x.Call.Args[0], Cross: b})
+				}
 			case *ssa.Store:
 				ia, ok := x.Addr.(*ssa.IndexAddr)
 				if !ok || !isZeroConst(x.Val) {
@@ -382,6 +387,9 @@ func runRegrowRule(c *Ctx, rule string, fields map[*types.Var]string, inScope fu
 		case s.Field != nil && fields[s.Field] != "":
 			why = fields[s.Field]
 			seenField[s.Field] = true
+		case s.Field != nil && pooledPointerField(p, s.Field):
+			why = "the field belongs to a pooled object and its elements hold pointers: what the previous user left is read by whoever does not overwrite every element, and keeps the previous user's memory alive"
+			seenField[s.Field] = true
 		case s.Param != nil && accumulatesInto(s.Fn, s.Param, s.Slice):
 			why = "the function adds to (or ORs bits into) the elements of " + s.Param.Name() + " instead of overwriting them"
 		default:
@@ -414,4 +422,71 @@ func isSlicesGrow(call *ssa.Call) bool {
 		g = o
 	}
 	return g.Name() == "Grow" && g.Pkg != nil && g.Pkg.Pkg.Path() == "slices"
+}
+
+// pooledPointerField: f is a slice field, with elements that contain pointers,
+// of a struct type kept in a memory.Pool[T] package-level pool.
+func pooledPointerField(p *Prog, f *types.Var) bool {
+	sl, ok := f.Type().Underlying().(*types.Slice)
+	if !ok || !hasPointers(sl.Elem(), 0) {
+		return false
+	}
+	for _, t := range pooledTypes(p) {
+		st, ok := t.Underlying().(*types.Struct)
+		if !ok {
+			continue
+		}
+		for i := 0; i < st.NumFields(); i++ {
+			if st.Field(i).Origin() == f {
+				return true
+			}
+		}
+	}
+	return false
+}
+
+func hasPointers(t types.Type, depth int) bool {
+	if depth > 4 {
+		return true
+	}
+	switch u := t.Underlying().(type) {
+	case *types.Pointer, *types.Slice, *types.Map, *types.Chan, *types.Interface, *types.Signature:
+		return true
+	case *types.Basic:
+		return u.Kind() == types.String || u.Kind() == types.UnsafePointer
+	case *types.Array:
+		return hasPointers(u.Elem(), depth+1)
+	case *types.Struct:
+		for i := 0; i < u.NumFields(); i++ {
+			if hasPointers(u.Field(i).Type(), depth+1) {
+				return true
+			}
+		}
+	}
+	return false
+}
+
+var pooledTypesMemo = map[*Prog][]types.Type{}
+
+func pooledTypes(p *Prog) []types.Type {
+	if ts, ok := pooledTypesMemo[p]; ok {
+		return ts
+	}
+	var out []types.Type
+	for _, pkg := range p.Mod {
+		sc := pkg.Types.Scope()
+		for _, name := range sc.Names() {
+			v, ok := sc.Lookup(name).(*types.Var)
+			if !ok {
+				continue
+			}
+			n := namedOf(v.Type())
+			if n == nil || n.Obj().Name() != "Pool" || n.TypeArgs() == nil || n.TypeArgs().Len() != 1 {
+				continue
+			}
+			out = append(out, n.TypeArgs().At(0))
+		}
+	}
+	pooledTypesMemo[p] = out
+	return out
 }
